@@ -99,7 +99,7 @@ def runAll (G : Guards) (u : Units) (scripts : List (List (Bytes × Option (List
     else
       let (u', tagged, e) := runTagged G multi r.u sc
       let replies := tagged.map (·.1)
-      let created := if e == .consumed && replies == [.text, .json] then 1 else 0
+      let created := if e == .consumed && replies.drop (replies.length - 2) == [.text, .json] then 1 else 0
       r := { u := u', sessions := r.sessions ++ [replies], wild := r.wild ++ [tagged.map (·.2)],
              ended := (if e == .panic || e == .hang then e else r.ended), created := r.created + created }
   return r
